@@ -25,6 +25,27 @@ Fixpoint lf_bw (l : bytes) : bytes :=
 Lemma rev_cons_app {A} (b : A) l : rev (b :: l) = rev l ++ [b].
 Proof. reflexivity. Qed.
 
+Lemma lrev_rev l : lrev l = rev l.
+Proof. unfold lrev. symmetry. apply rev_alt. Qed.
+
+Lemma trim_spec line :
+  trim_last_eol line =
+  match rev line with
+  | a :: r =>
+      if a =? 10 then
+        match r with
+        | b :: r' => if b =? 13 then Some (rev r') else Some (rev r)
+        | [] => Some []
+        end
+      else None
+  | [] => None
+  end.
+Proof.
+  unfold trim_last_eol. rewrite lrev_rev. destruct (rev line) as [|a r]; [reflexivity|].
+  destruct (a =? 10); [|reflexivity]. destruct r as [|b r']; [reflexivity|].
+  rewrite !lrev_rev. reflexivity.
+Qed.
+
 Lemma eqb_single_last q a : bytes_eqb (q ++ [a]) [10] = true -> q = [] /\ a = 10.
 Proof.
   destruct q as [|y q]; cbn.
@@ -38,7 +59,7 @@ Lemma conv_line_cons eol b ln :
   conv_line eol (b :: ln) =
   if (b =? 13) && bytes_eqb ln [10] then eol else b :: conv_line eol ln.
 Proof.
-  intros Hne. unfold conv_line, trim_last_eol. rewrite rev_cons_app.
+  intros Hne. unfold conv_line. rewrite !trim_spec. rewrite rev_cons_app.
   destruct (rev ln) as [|a r] eqn:Hr.
   { apply (f_equal (@rev N)) in Hr. rewrite rev_involutive in Hr. cbn in Hr. contradiction. }
   assert (Hln : ln = rev r ++ [a]).
